@@ -35,6 +35,8 @@ func main() {
 		os.Exit(cmdReplay(os.Args[2:]))
 	case "selftest":
 		os.Exit(cmdSelftest(os.Args[2:]))
+	case "callers":
+		os.Exit(cmdCallers(os.Args[2:]))
 	default:
 		usage()
 	}
